@@ -110,7 +110,7 @@ fn tok_step(out: &mut Out, w: &mut World<Tok>, rng: &mut Rng, with_mul: bool) {
     if rng.below(5) == 0 {
         // an element write through `get_mut` (History operation `setAt`): in range and one past the extents
         let (i, j) = (rng.below(nr + 2), rng.below(nc + 2));
-        w.poke(out, a, i, j, &format!("p{}", rng.below(1000)));
+        if rng.coin() { w.poke(out, a, i, j, &format!("p{}", rng.below(1000))); } else { w.bump(out, a, i, j); }
         return;
     }
     let pick = if with_mul { rng.below(19) } else { let x = rng.below(11); if x == 10 { 17 } else { x } };
@@ -291,7 +291,7 @@ pub fn run_c01(out: &mut Out, rng: &mut Rng, tier: Tier) -> String {
         out.nontrivial();
     }
     format!(
-        "{n} random histories (4..{} operations over 4 registers) on destructor tokens with the ledger delta (tokens created / dropped) of every operation observed: construction, drop, transpose, the four order operations, reshape (valid / invalid), resize (grow / shrink / overflowing), swap_rows / swap_cols / swap (plain and wrapping, valid / invalid), overwrite, clear, shrink_to(_fit), element writes through get_mut (valid / invalid), apply, map, map_ref, clone, \
+        "{n} random histories (4..{} operations over 4 registers) on destructor tokens with the ledger delta (tokens created / dropped) of every operation observed: construction, drop, transpose, the four order operations, reshape (valid / invalid), resize (grow / shrink / overflowing), swap_rows / swap_cols / swap (plain and wrapping, valid / invalid), overwrite, clear, shrink_to(_fit), element writes and in-place element updates through get_mut (valid / invalid), apply, map, map_ref, clone, \
          generic and named elementwise operations in the three ownership variants (conformable / not), element iterators incl. consuming ones, contains, ==, row/column views of all families, iter_nth_*; {} more token histories adding the products (multiply, multiplication_like_operation, * operators) and generic scalar operations; {} histories each on 4-byte Copy elements, the unit type and a zero-sized type with drop glue. \
          Shapes 0..=5 x 0..=5 including r x 0, 0 x c, 0 x 0. Oracle after every operation: nrows*ncols == size, every coordinate through get() against the independent row-of-rows reference, order tag; at the end of every history: addresses of all coordinates pairwise distinct and in range, every matrix dropped, every token ever created dropped exactly once (live = 0, no double drop). All cases non-trivial",
         4 + len, n / 2, n / 3
